@@ -6,9 +6,11 @@ import (
 	"go/token"
 	"go/types"
 	"math/big"
+	"os"
 	"sort"
 	"strings"
 	"sync"
+	"time"
 
 	"golang.org/x/tools/go/ssa"
 )
@@ -113,6 +115,9 @@ type Exec struct {
 	pending  []pendingAssert
 	flushing bool
 	pcSet    map[*Term]bool
+	fixed    map[*Term]*big.Int
+	prodMemo map[*Term]*Term
+	defs     []*Term // defining equations of abstracted products
 	initMode bool
 	created  []*Object
 	concrete bool // init mode: no solver, everything must fold
@@ -214,7 +219,19 @@ func (ex *Exec) check(extra *Term, want []*Term) (Result, map[string]*big.Int) {
 	if extra != nil && extra.IsTrue() {
 		extra = nil
 	}
-	return ex.S.Check(ex.pc, extra, want)
+	t0 := time.Now()
+	r, m := ex.S.Check(ex.pc, extra, want)
+	if d := time.Since(t0); d > 2*time.Second && os.Getenv("VERIF_SLOWLOG") != "" {
+		x := ""
+		if extra != nil {
+			x = extra.SMT()
+			if len(x) > 300 {
+				x = x[:300]
+			}
+		}
+		fmt.Printf("SLOW %.1fs %s at %s: %s\n", d.Seconds(), r, ex.where(), x)
+	}
+	return r, m
 }
 
 // Dec is one recorded branch decision; V carries the candidate value of a
@@ -222,6 +239,7 @@ func (ex *Exec) check(extra *Term, want []*Term) (Result, map[string]*big.Int) {
 type Dec struct {
 	B bool
 	V *big.Int
+	L string
 }
 
 // decide returns the truth value of c on this path, forking when both are feasible.
@@ -249,7 +267,7 @@ func (ex *Exec) decideV(c *Term, v *big.Int, trueKnownSat bool) bool {
 			ex.assumeT(p.c)
 		}
 		ex.pending = nil
-		ex.trace = append(ex.trace, Dec{d, v})
+		ex.trace = append(ex.trace, Dec{d, v, ex.prefix[ex.pos-1].L})
 		if d {
 			ex.assumeT(c)
 		} else {
@@ -280,7 +298,8 @@ func (ex *Exec) decideV(c *Term, v *big.Int, trueKnownSat bool) bool {
 		rt, mt = ex.checkM(c)
 	}
 	if rt == Unsat {
-		ex.trace = append(ex.trace, Dec{false, v})
+		ForcedSite(ex.where())
+		ex.trace = append(ex.trace, Dec{false, v, c.SMT()})
 		if mf != nil {
 			ex.model = mf
 		}
@@ -291,7 +310,8 @@ func (ex *Exec) decideV(c *Term, v *big.Int, trueKnownSat bool) bool {
 		rf, mf = ex.checkM(Not(c))
 	}
 	if rf == Unsat {
-		ex.trace = append(ex.trace, Dec{true, v})
+		ForcedSite(ex.where())
+		ex.trace = append(ex.trace, Dec{true, v, c.SMT()})
 		ex.model = mt
 		ex.assumeT(c)
 		return true
@@ -301,9 +321,9 @@ func (ex *Exec) decideV(c *Term, v *big.Int, trueKnownSat bool) bool {
 	}
 	ex.model = mt
 	ForkSite(ex.where())
-	sib := append(append([]Dec{}, ex.trace...), Dec{false, v})
+	sib := append(append([]Dec{}, ex.trace...), Dec{false, v, c.SMT()})
 	ex.forks = append(ex.forks, sib)
-	ex.trace = append(ex.trace, Dec{true, v})
+	ex.trace = append(ex.trace, Dec{true, v, c.SMT()})
 	ex.assumeT(c)
 	return true
 }
@@ -390,7 +410,7 @@ func (ex *Exec) panicEvent(msg string) {
 	}
 	if ex.Opt.Enabled(id) {
 		f := Finding{ID: id, Kind: "panic", Msg: msg, Where: ex.where()}
-		if r, m := ex.check(TTrue, ex.inputTerms()); r != Unsat {
+		if r, m := ex.check(And(ex.defs...), ex.inputTerms()); r != Unsat {
 			f.Inputs = ex.modelToInputs(m)
 			ex.res.Findings = append(ex.res.Findings, f)
 		}
@@ -1082,6 +1102,9 @@ func (ex *Exec) concretize(v IntV, what string) *big.Int {
 	if ex.concrete {
 		ex.unsupported("concretize in concrete mode")
 	}
+	if c, ok := ex.fixed[t]; ok {
+		return c
+	}
 	// model-guided enumeration: ask for a value, fork on "t == value"
 	for iter := 0; iter < 100000; iter++ {
 		var cand *big.Int
@@ -1089,7 +1112,7 @@ func (ex *Exec) concretize(v IntV, what string) *big.Int {
 		if ex.pos < len(ex.prefix) {
 			cand = ex.prefix[ex.pos].V
 			if cand == nil {
-				ex.stop("error", "replay misaligned in concretize("+what+")")
+				ex.stop("error", fmt.Sprintf("replay misaligned in concretize(%s) t=%s pos=%d len=%d where=%s entry=%s prev=%s", what, t.SMT(), ex.pos, len(ex.prefix), ex.where(), ex.prefix[ex.pos].L, ex.prefix[ex.pos-1].L))
 			}
 		} else {
 			r, m := ex.check(TTrue, []*Term{t})
@@ -1106,6 +1129,10 @@ func (ex *Exec) concretize(v IntV, what string) *big.Int {
 			known = true
 		}
 		if ex.decideV(Eq(t, IntConst(cand)), cand, known) {
+			if ex.fixed == nil {
+				ex.fixed = map[*Term]*big.Int{}
+			}
+			ex.fixed[t] = cand
 			return new(big.Int).Set(cand)
 		}
 	}
@@ -1160,6 +1187,14 @@ var (
 	forkMu    sync.Mutex
 	ForkSites = map[string]int{}
 )
+
+var ForcedSites = map[string]int{}
+
+func ForcedSite(w string) {
+	forkMu.Lock()
+	ForcedSites[w]++
+	forkMu.Unlock()
+}
 
 func ForkSite(w string) {
 	forkMu.Lock()
